@@ -18,7 +18,7 @@ import (
 // between calls; a new variable, pool, cache or member is state the models do not have, so the census is compared
 // (by `decide`) with the transcribed expectation Spec/State.lean.
 
-var stateDirs = []string{".", "internal/files", "internal/files/v2", "internal/storage", "internal/responder", "internal/metrics", "cmd/server"}
+var stateDirs = []string{".", "client", "internal/files", "internal/files/v2", "internal/storage", "internal/responder", "internal/metrics", "cmd/server"}
 
 // which struct types of the library package are part of the census (the record types are covered by the layouts)
 var stateRootTypes = map[string]bool{"Reader": true, "Writer": true, "File": true, "CashLetter": true, "Bundle": true, "converters": true, "validator": true, "ParseError": true}
@@ -176,9 +176,9 @@ func stmts(list []ast.Stmt, out *[]string, expr func(ast.Node)) {
 	}
 }
 
-var rootSkeletonRe = regexp.MustCompile(`^(FileFromJSON|NewReader|NewWriter|NewFile|NewCashLetter|NewBundle|.*Option|UnmarshalJSON|MarshalJSON|setRecordType|setRecordTypes|DecodeImageData|IsFRBCompatibilityModeEnabled|handleIBM1047Compatibility|DecodeEBCDIC|Passthrough|Flush|SetHeader|SetControl|AddCashLetter|AddBundle|GetBundles|GetRoutingNumberSummary|GetCreditItems)$`)
+var rootSkeletonRe = regexp.MustCompile(`^(FileFromJSON|NewReader|NewWriter|NewFile|NewCashLetter|NewBundle|.*Option|UnmarshalJSON|MarshalJSON|setRecordType|setRecordTypes|DecodeImageData|IsFRBCompatibilityModeEnabled|handleIBM1047Compatibility|DecodeEBCDIC|Passthrough|Flush|SetHeader|SetControl|AddCashLetter|AddBundle|GetBundles|GetRoutingNumberSummary|GetCreditItems|parseNumField|parseStringField|stringToBytesField|formatYYYYMMDDDate|parseYYYYMMDDDate|formatSimpleTime|parseSimpleTime|alphaField|numericField|nbsmField|stringField|validSizeInt|validSizeUint|isUpperAlphanumeric|isAlphanumeric|isAlphanumericSpecial|isNumeric)$`)
 
-var skeletonDirs = []string{"internal/files", "internal/files/v2", "internal/storage", "internal/responder"}
+var skeletonDirs = []string{"client", "cmd/server", "internal/files", "internal/files/v2", "internal/storage", "internal/responder"}
 
 func emitState(dir, repo string) {
 	type ent struct{ key, val string }
@@ -290,6 +290,21 @@ func emitState(dir, repo string) {
 								kind = initKind(vs.Values[i])
 							}
 							globals = append(globals, ent{d + ":" + nm.Name, kind})
+						}
+					}
+				case token.CONST:
+					// named constants of the library and of the server (bounds, limits, mode names): (name, value as written)
+					if d == "client" {
+						break
+					}
+					for _, sp := range gd.Specs {
+						vs := sp.(*ast.ValueSpec)
+						for i, nm := range vs.Names {
+							val := "(iota / repeated)"
+							if i < len(vs.Values) {
+								val = src(vs.Values[i])
+							}
+							globals = append(globals, ent{d + ":const " + nm.Name, val})
 						}
 					}
 				case token.TYPE:
